@@ -79,6 +79,7 @@ type world struct {
 
 	stopping  bool // no new client/operator operations
 	honest    bool // workers behave
+	draining  bool // the end-of-run protocol has begun
 	exiting   bool // workers leave their loops
 	leaving   bool // clients and operator abandon whatever they wait for
 	uuidSeq   uint64
@@ -88,6 +89,7 @@ type world struct {
 	orc      *oracles
 
 	knownNames []string // operation names seen by clients
+	mixedDepth bool     // invocation key lists of different lengths occur
 	maxOps     int
 	faultFree  bool
 	fair       bool // C04 workload shape
@@ -365,6 +367,14 @@ func newWorld(r *simrun.Run, prop string) *world {
 		w.demuxOn = true
 		router = demux
 	}
+	if t.Bool(1, 2) {
+		// Invocation key lists of different lengths: requests whose target
+		// is "//depth1" or "//depth2" keep only their first one or two
+		// keys, so that invocations hold directly queued operations and
+		// nested invocations at the same time.
+		w.mixedDepth = true
+		router = depthRouter{router}
+	}
 	w.bq = scheduler.NewInMemoryBuildQueue(
 		&fakeCAS{w}, w.clock, w.newUUID, &w.cfg, 1<<20, router,
 		&simAuthorizer{w, "exec"}, &simAuthorizer{w, "drain"}, &simAuthorizer{w, "kill"}, &simAuthorizer{w, "sync"},
@@ -481,6 +491,7 @@ func (w *world) events() []simsync.Event {
 func (w *world) drain() {
 	k := w.k
 	k.Note("drain: faults off, honest workers")
+	w.draining = true
 	k.FaultsOn = false
 	w.faultFree = true
 	w.stopping = true
@@ -610,4 +621,25 @@ func mustInstanceName(s string) digest.InstanceName {
 		panic(simsync.HarnessError{Msg: err.Error()})
 	}
 	return in
+}
+
+// depthRouter shortens the invocation key list of requests that ask for it
+// through their target ID.
+type depthRouter struct{ base routing.ActionRouter }
+
+func (r depthRouter) RouteAction(ctx context.Context, digestFunction digest.Function, action *remoteexecution.Action, requestMetadata *remoteexecution.RequestMetadata) (*remoteexecution.Action, platform.Key, []invocation.Key, initialsizeclass.Selector, error) {
+	a, pk, keys, sel, err := r.base.RouteAction(ctx, digestFunction, action, requestMetadata)
+	if err == nil {
+		switch requestMetadata.GetTargetId() {
+		case "//depth1":
+			if len(keys) > 1 {
+				keys = keys[:1]
+			}
+		case "//depth2":
+			if len(keys) > 2 {
+				keys = keys[:2]
+			}
+		}
+	}
+	return a, pk, keys, sel, err
 }
